@@ -361,7 +361,24 @@ func (l *Lowerer) loopSpec() (int, *LoopSpec) {
 		top.loopOrd++
 		if top.contract != nil {
 			ls = top.contract.Loops[ord]
-			if name, ok := top.contract.RangeNames[l.pendingRangeKey]; ok && l.pendingRangeKey != "" {
+			// "expr#k" addresses the k-th loop (in lowering order) over the same expression
+			key := l.pendingRangeKey
+			if key != "" {
+				if top.rangeSeen == nil {
+					top.rangeSeen = map[string]int{}
+				}
+				k := top.rangeSeen[key]
+				top.rangeSeen[key] = k + 1
+				if _, ok := top.contract.RangeNames[fmt.Sprintf("%s#%d", key, k)]; ok {
+					key = fmt.Sprintf("%s#%d", key, k)
+				} else if k > 0 {
+					if _, plain := top.contract.RangeNames[key]; plain {
+						// a plain name addresses the first loop over the expression only
+						key = ""
+					}
+				}
+			}
+			if name, ok := top.contract.RangeNames[key]; ok && key != "" {
 				ls = top.contract.NamedLoops[name]
 				if ls == nil {
 					ls = &LoopSpec{Name: name}
@@ -723,6 +740,8 @@ func (l *Lowerer) decreasesCheck(ls *LoopSpec, hidden map[string]envEntry, decVa
 }
 
 func (l *Lowerer) rangeStmt(x *ast.RangeStmt, label string) {
+	l.rangeStack = append(l.rangeStack, x)
+	defer func() { l.rangeStack = l.rangeStack[:len(l.rangeStack)-1] }()
 	xt := l.typeOf(x.X)
 	coll, _ := l.tr(x.X)
 	l.tmpN++
